@@ -108,6 +108,42 @@ def noninterference(chk, C=2, CH=2, kind="rw"):
         chk.record(Result(_Ob, "unknown", secs, info))
 
 
+def init_independence(chk, C=3):
+    """Engine.__init__: the kernel state of chain c is the kernel's init_state at chain c's OWN initial model state (a kernel whose initial
+    step size depends on the start value makes the dependence visible)"""
+    import liesel.goose as gs
+    from liesel.goose.engine import Engine
+    from liesel.goose.epoch import EpochConfig, EpochType
+    from liesel.goose.kernel_sequence import KernelSequence
+    from liesel.goose.rw import RWKernelState
+    model = gs.DictInterface(lambda s: -0.5 * jnp.sum((s["x"] - s["m"]) ** 2))
+
+    class StartScaledRW(gs.RWKernel):
+        def init_state(self, prng_key, model_state):
+            return RWKernelState(step_size=0.1 + model_state["x"] * model_state["x"])
+    k = StartScaledRW(["x"])
+    k.set_model(model)
+    k.identifier = "k0"
+    cfgs = [EpochConfig(EpochType.INITIAL_VALUES, 1, 1, None), EpochConfig(EpochType.POSTERIOR, 2, 1, None)]
+    seeds = jax.random.split(jax.random.PRNGKey(0), C)
+
+    def f(xs):
+        e = Engine(seeds, {"x": xs, "m": jnp.ones(C)}, KernelSequence([k]), cfgs, 2, model, ["x"], show_progress=False)
+        return e._kernel_states[0].step_size
+    from ..jx2smt import sym_array as _sa
+    xs = _sa("init_x", (C,))
+    enc = chk.note_enc(Enc(f"Engine.__init__: kernel states of {C} chains", f, (jnp.array([0.2, 0.5, -0.7][:C]),), (xs,)))
+
+    def goal(V):
+        out = V.out
+        if np.shape(out) != (C,):
+            return [], z3.BoolVal(False)
+        return [], z3.And(*[out[c] == V.c(np.float32(0.1)) + xs[c] * xs[c] for c in range(C)])
+    chk.functions += ["liesel.goose.engine.Engine.__init__ (kernel-state initialisation, vmap over chains)"]
+    return [Obligation(f"Engine.__init__: each of the {C} chains' kernel states is init_state at that chain's own initial model state (no chain's start value reaches another chain's kernel state)",
+                       [enc], goal, signature="init-independence")]
+
+
 # ------------------------------------------------------------------ B: initial values, jitter, seeds through the real builder
 class RecEngine:
     last = None
@@ -376,6 +412,9 @@ def main():
     if chk.tier == "thorough":
         chk.guarded("non-interference-3x3", "tracing the jitted three-chain chunk", noninterference, chk, 3, 3, "rw")
     obs = []
+    res = chk.guarded("init-independence", "tracing Engine.__init__ with a start-value dependent kernel", init_independence, chk)
+    if res:
+        obs += res
     for multi in (False, True):
         res = chk.guarded(f"builder:{multi}", f"EngineBuilder.set_initial_values(multiple_chains={multi}) / build()", builder_obligations, chk, multi)
         if res:
